@@ -637,4 +637,308 @@ theorem LogInv.exec {s : St} (h : LogInv s) (hL : LInv s) (op : Op) : LogInv (ex
       · exact h.same rfl rfl
       · split <;> exact h.same rfl rfl
 
+/-! ### the destruction sequence at the end of a history -/
+
+theorem Tr.run_plain : ∀ (ops : List Op) (s : St), (∀ op ∈ ops, plainOp op = true) → Tr s (run .fixed s ops) [] := by
+  intro ops
+  induction ops with
+  | nil => intro s _; exact Tr.refl s
+  | cons op rest ih =>
+    intro s h
+    have h1 := Tr.exec_plain s op (h op List.mem_cons_self)
+    have h2 := ih (exec .fixed s op) (fun o ho => h o (List.mem_cons_of_mem _ ho))
+    show Tr s (run .fixed (exec .fixed s op) rest) []
+    simpa using h1.trans h2
+
+theorem LogInv.run {s : St} (h : LogInv s) (hL : LInv s) : ∀ (ops : List Op), legalFrom .fixed s ops = true →
+    LogInv (run .fixed s ops) := by
+  intro ops
+  induction ops generalizing s with
+  | nil => intro _; exact h
+  | cons op rest ih =>
+    intro hl
+    simp only [legalFrom, Bool.and_eq_true] at hl
+    exact ih (h.exec hL op) (hL.exec op hl.1) hl.2
+
+theorem destroySockObj_pool (s : St) (i : Nat) : (s.destroySockObj i).poolAlive = s.poolAlive := by
+  unfold St.destroySockObj
+  simp only
+  show (if _ then _ else _ : St).poolAlive = _
+  split <;> split <;> split <;> rfl
+
+/-- `release i ; destroy i` for every listed socket that is alive -/
+theorem end_socks (alive0 : Nat → Bool) : ∀ (l : List Nat) (s : St), l.Nodup → LInv s →
+    (∀ i ∈ l, (s.sock i).alive = alive0 i) →
+    let ops := l.flatMap fun i => if alive0 i then [Op.release i, Op.destroySock i] else []
+    legalFrom .fixed s ops = true ∧ (∀ i ∈ l, ((run .fixed s ops).sock i).alive = false) ∧
+    (run .fixed s ops).todo = s.todo ∧ (∀ d, ((run .fixed s ops).drv d).alive = (s.drv d).alive) ∧
+    (run .fixed s ops).poolAlive = s.poolAlive := by
+  intro l
+  induction l with
+  | nil => intro s _ _ _; exact ⟨rfl, fun _ h => (by cases h), rfl, fun _ => rfl, rfl⟩
+  | cons i rest ih =>
+    intro s hnd hL hal
+    obtain ⟨hirest, hndrest⟩ := List.nodup_cons.mp hnd
+    have hplain : ∀ (l' : List Nat), ∀ op ∈ (l'.flatMap fun i => if alive0 i then [Op.release i, Op.destroySock i] else []),
+        plainOp op = true := by
+      intro l' op hop
+      simp only [List.mem_flatMap] at hop
+      obtain ⟨j, _, hj⟩ := hop
+      split at hj
+      · simp only [List.mem_cons, List.mem_nil_iff, or_false] at hj
+        rcases hj with rfl | rfl <;> rfl
+      · cases hj
+    simp only [List.flatMap_cons]
+    cases ha : alive0 i with
+    | false =>
+      simp only [Bool.false_eq_true, ↓reduceIte, List.nil_append]
+      obtain ⟨h1, h2, h3, h4, h5⟩ := ih s hndrest hL (fun j hj => hal j (List.mem_cons_of_mem _ hj))
+      refine ⟨h1, ?_, h3, h4, h5⟩
+      intro j hj
+      rcases List.mem_cons.mp hj with rfl | hj
+      · have htr := Tr.run_plain _ s (hplain rest)
+        cases h : ((run .fixed s (rest.flatMap fun i => if alive0 i then [Op.release i, Op.destroySock i] else [])).sock j).alive with
+        | false => rfl
+        | true =>
+          have := (htr.frame j).2.2 h
+          rw [hal j List.mem_cons_self, ha] at this; cases this
+      · exact h2 j hj
+    | true =>
+      simp only [↓reduceIte, List.cons_append, List.nil_append]
+      have hali : (s.sock i).alive = true := by rw [hal i List.mem_cons_self, ha]
+      have hl1 : legalOp s (.release i) = true := by simp only [legalOp]; exact hL.sockPresent i hali
+      have hL1 := hL.exec _ hl1
+      have hub : s.ub = none := hL.ub
+      have e1 : exec .fixed s (.release i) = s.setSock i { (s.sock i) with held := 0 } := by
+        unfold Lifecycle.exec; simp [hub]
+      have hl2 : legalOp (exec .fixed s (.release i)) (.destroySock i) = true := by
+        rw [e1]; simp [legalOp, hali]
+      have hL2 := hL1.exec _ hl2
+      have e2 : exec .fixed (exec .fixed s (.release i)) (.destroySock i) = (exec .fixed s (.release i)).destroySockObj i :=
+        exec_destroySock hL1.ub hl2
+      obtain ⟨o1, o2, o3⟩ := destroySockObj_other (exec .fixed s (.release i)) i
+      have hsame : ∀ j, j ≠ i → (exec .fixed (exec .fixed s (.release i)) (.destroySock i)).sock j = s.sock j := by
+        intro j hj
+        rw [e2, o1 j hj, e1, setSock_other _ _ hj]
+      obtain ⟨h1, h2, h3, h4, h5⟩ := ih (exec .fixed (exec .fixed s (.release i)) (.destroySock i)) hndrest hL2
+        (fun j hj => by
+          have hji : j ≠ i := fun e => hirest (e ▸ hj)
+          rw [hsame j hji]; exact hal j (List.mem_cons_of_mem _ hj))
+      refine ⟨by simp only [legalFrom, hl1, hl2, h1, Bool.and_self], ?_, ?_, ?_, ?_⟩
+      · intro j hj
+        simp only [run]
+        rcases List.mem_cons.mp hj with rfl | hj
+        · have htr := Tr.run_plain _ (exec .fixed (exec .fixed s (.release j)) (.destroySock j)) (hplain rest)
+          cases h : ((run .fixed (exec .fixed (exec .fixed s (.release j)) (.destroySock j))
+              (rest.flatMap fun i => if alive0 i then [Op.release i, Op.destroySock i] else [])).sock j).alive with
+          | false => rfl
+          | true =>
+            have := (htr.frame j).2.2 h
+            rw [e2, destroySockObj_dead] at this; cases this
+        · exact h2 j hj
+      · simp only [run]; rw [h3, e2, o3, e1]; rfl
+      · intro d; simp only [run]; rw [h4 d, e2, o2 d, e1]; rfl
+      · simp only [run]; rw [h5, e2, destroySockObj_pool, e1]; rfl
+
+/-- membership in a list of optional singletons -/
+theorem mem_flatMap_opt {l : List Nat} {p : Nat → Bool} {f : Nat → Op} {x : Op} :
+    x ∈ (l.flatMap fun t => if p t then [f t] else []) ↔ ∃ t ∈ l, p t = true ∧ x = f t := by
+  simp only [List.mem_flatMap]
+  constructor
+  · rintro ⟨t, ht, hx⟩
+    split at hx
+    · rename_i hp
+      simp only [List.mem_cons, List.mem_nil_iff, or_false] at hx
+      exact ⟨t, ht, hp, hx⟩
+    · cases hx
+  · rintro ⟨t, ht, hp, rfl⟩
+    exact ⟨t, ht, by simp [hp]⟩
+
+theorem flatMap_opt_nodup (p : Nat → Bool) (f : Nat → Op) (hinj : ∀ a b, f a = f b → a = b) :
+    ∀ (l : List Nat), l.Nodup → (l.flatMap fun t => if p t then [f t] else []).Nodup := by
+  intro l
+  induction l with
+  | nil => intro _; exact List.nodup_nil
+  | cons t rest ih =>
+    intro hnd
+    obtain ⟨htrest, hndrest⟩ := List.nodup_cons.mp hnd
+    simp only [List.flatMap_cons]
+    split
+    · simp only [List.cons_append, List.nil_append]
+      refine List.nodup_cons.mpr ⟨?_, ih hndrest⟩
+      intro hm
+      obtain ⟨t', ht', _, heq⟩ := mem_flatMap_opt.mp hm
+      exact htrest (hinj _ _ heq ▸ ht')
+    · simpa using ih hndrest
+
+/-- ToDo handles and drivers are only dropped: sockets, futures and the pool are untouched -/
+theorem run_drops_same : ∀ (ops : List Op) (s : St), (∀ op ∈ ops, (∃ t, op = .dropTodo t) ∨ ∃ d, op = .destroyDriver d) →
+    (run .fixed s ops).sock = s.sock ∧ (run .fixed s ops).futs = s.futs ∧ (run .fixed s ops).nfut = s.nfut ∧
+    (run .fixed s ops).poolAlive = s.poolAlive := by
+  intro ops
+  induction ops with
+  | nil => intro s _; exact ⟨rfl, rfl, rfl, rfl⟩
+  | cons op rest ih =>
+    intro s h
+    have h1 : (exec .fixed s op).sock = s.sock ∧ (exec .fixed s op).futs = s.futs ∧ (exec .fixed s op).nfut = s.nfut ∧
+        (exec .fixed s op).poolAlive = s.poolAlive := by
+      rcases h op List.mem_cons_self with ⟨t, rfl⟩ | ⟨d, rfl⟩
+      · unfold Lifecycle.exec
+        split
+        · exact ⟨rfl, rfl, rfl, rfl⟩
+        · simp only; split <;> exact ⟨rfl, rfl, rfl, rfl⟩
+      · unfold Lifecycle.exec
+        split
+        · exact ⟨rfl, rfl, rfl, rfl⟩
+        · simp only; split <;> exact ⟨rfl, rfl, rfl, rfl⟩
+    obtain ⟨a, b, c, d⟩ := ih (exec .fixed s op) (fun o ho => h o (List.mem_cons_of_mem _ ho))
+    simp only [run]
+    exact ⟨a.trans h1.1, b.trans h1.2.1, c.trans h1.2.2.1, d.trans h1.2.2.2⟩
+
+/-- what the harness destroys at the end of a history, in its order -/
+def implicitEnd (s : St) (socks todos drvs : List Nat) : List Op :=
+  (socks.flatMap fun i => if (s.sock i).alive then [Op.release i, Op.destroySock i] else []) ++
+  (todos.flatMap fun t => if (s.todo t).handle then [Op.dropTodo t] else []) ++
+  (drvs.flatMap fun d => if (s.drv d).alive then [Op.destroyDriver d] else []) ++
+  (if s.poolAlive then [Op.destroyPool] else [])
+
+/-- what the harness does at the end of a history (release and destroy every live socket, drop every ToDo handle,
+destroy every driver, destroy the pool) is a legal continuation of any reachable state, and leaves no socket
+alive and no future pending -/
+theorem end_legal {s : St} (hL : LInv s) (hF : FInv s) {socks todos drvs : List Nat}
+    (hnd : socks.Nodup ∧ todos.Nodup ∧ drvs.Nodup) (hcover : ∀ i, (s.sock i).alive = true → i ∈ socks) :
+    legalFrom .fixed s (implicitEnd s socks todos drvs) = true ∧
+    (∀ op ∈ implicitEnd s socks todos drvs, plainOp op = true) ∧
+    (∀ i, ((run .fixed s (implicitEnd s socks todos drvs)).sock i).alive = false) ∧
+    (∀ j, (run .fixed s (implicitEnd s socks todos drvs)).isPending j = false) := by
+  unfold implicitEnd
+  -- A: the sockets
+  have hA := end_socks (fun i => (s.sock i).alive) socks s hnd.1 hL (fun _ _ => rfl)
+  dsimp only at hA
+  obtain ⟨hA1, hA2, hA3, hA4, hA5⟩ := hA
+  generalize hAdef : (socks.flatMap fun i => if (s.sock i).alive then [Op.release i, Op.destroySock i] else []) = A at *
+  have hAplain : ∀ op ∈ A, plainOp op = true := by
+    intro op hop
+    rw [← hAdef] at hop
+    simp only [List.mem_flatMap] at hop
+    obtain ⟨j, _, hj⟩ := hop
+    split at hj
+    · simp only [List.mem_cons, List.mem_nil_iff, or_false] at hj
+      rcases hj with rfl | rfl <;> rfl
+    · cases hj
+  have hLA := hL.run A hA1
+  have hFA := hF.run .fixed A
+  have hAtr := Tr.run_plain A s hAplain
+  have hAdead : ∀ i, ((run .fixed s A).sock i).alive = false := by
+    intro i
+    cases h : ((run .fixed s A).sock i).alive with
+    | false => rfl
+    | true =>
+      have h0 := (hAtr.frame i).2.2 h
+      have := hA2 i (hcover i h0)
+      rw [h] at this; cases this
+  -- B ++ C: ToDo handles and drivers
+  generalize hBdef : (todos.flatMap fun t => if (s.todo t).handle then [Op.dropTodo t] else []) = B at *
+  generalize hCdef : (drvs.flatMap fun d => if (s.drv d).alive then [Op.destroyDriver d] else []) = C at *
+  have hBmem : ∀ op, op ∈ B ↔ ∃ t ∈ todos, (s.todo t).handle = true ∧ op = .dropTodo t := by
+    intro op; rw [← hBdef]; exact mem_flatMap_opt
+  have hCmem : ∀ op, op ∈ C ↔ ∃ d ∈ drvs, (s.drv d).alive = true ∧ op = .destroyDriver d := by
+    intro op; rw [← hCdef]; exact mem_flatMap_opt
+  have hBCnd : (B ++ C).Nodup := by
+    apply List.nodup_append.mpr
+    refine ⟨?_, ?_, ?_⟩
+    · rw [← hBdef]; exact flatMap_opt_nodup _ _ (fun a b h => by cases h; rfl) todos hnd.2.1
+    · rw [← hCdef]; exact flatMap_opt_nodup _ _ (fun a b h => by cases h; rfl) drvs hnd.2.2
+    · intro a ha b hb hab
+      obtain ⟨t, _, _, rfl⟩ := (hBmem a).mp ha
+      obtain ⟨d, _, _, rfl⟩ := (hCmem b).mp hb
+      cases hab
+  have hBCkind : ∀ op ∈ B ++ C, (∃ t, op = .dropTodo t) ∨ ∃ d, op = .destroyDriver d := by
+    intro op hop
+    rcases List.mem_append.mp hop with h | h
+    · obtain ⟨t, _, _, rfl⟩ := (hBmem op).mp h; exact .inl ⟨t, rfl⟩
+    · obtain ⟨d, _, _, rfl⟩ := (hCmem op).mp h; exact .inr ⟨d, rfl⟩
+  have hBClegal : legalFrom .fixed (run .fixed s A) (B ++ C) = true := by
+    apply legalFrom_destroy_tail _ _ hBCnd
+    · intro op hop
+      rcases hBCkind op hop with ⟨t, rfl⟩ | ⟨d, rfl⟩ <;> rfl
+    · intro op hop
+      rcases List.mem_append.mp hop with h | h
+      · obtain ⟨t, _, ht, rfl⟩ := (hBmem op).mp h
+        simp only [legalOp]; rw [hA3]; exact ht
+      · obtain ⟨d, _, hd, rfl⟩ := (hCmem op).mp h
+        simp only [legalOp]; rw [hA4 d]; exact hd
+  obtain ⟨hs1, hs2, hs3, hs4⟩ := run_drops_same (B ++ C) (run .fixed s A) hBCkind
+  have hLBC := hLA.run (B ++ C) hBClegal
+  have hFBC := hFA.run .fixed (B ++ C)
+  have hBCdead : ∀ i, ((run .fixed (run .fixed s A) (B ++ C)).sock i).alive = false := by
+    intro i; rw [hs1]; exact hAdead i
+  have hBCpend : ∀ j, (run .fixed (run .fixed s A) (B ++ C)).isPending j = false := by
+    intro j
+    cases hp : (run .fixed (run .fixed s A) (B ++ C)).isPending j with
+    | false => rfl
+    | true =>
+      obtain ⟨x, hx⟩ := (isPending_iff _ j).mp hp
+      have := (hFBC.fd j x hx).1
+      rw [hBCdead x] at this; cases this
+  have hBCplain : ∀ op ∈ B ++ C, plainOp op = true := by
+    intro op hop
+    rcases hBCkind op hop with ⟨t, rfl⟩ | ⟨d, rfl⟩ <;> rfl
+  -- P: the pool
+  have hops : A ++ B ++ C ++ (if s.poolAlive then [Op.destroyPool] else []) =
+      A ++ ((B ++ C) ++ (if s.poolAlive then [Op.destroyPool] else [])) := by
+    simp only [List.append_assoc]
+  rw [hops]
+  have hpoolEq : (run .fixed (run .fixed s A) (B ++ C)).poolAlive = s.poolAlive := by rw [hs4, hA5]
+  refine ⟨?_, ?_, ?_, ?_⟩
+  · rw [legalFrom_append, hA1, Bool.true_and, legalFrom_append, hBClegal, Bool.true_and]
+    split
+    · rename_i hpa
+      simp only [legalFrom, legalOp, Bool.and_true, Bool.and_eq_true, beq_iff_eq]
+      refine ⟨by rw [hpoolEq]; exact hpa, ?_⟩
+      unfold St.poolBusy
+      rw [List.length_eq_zero_iff, List.filter_eq_nil_iff]
+      intro j _
+      rw [hBCpend j]; simp
+    · rfl
+  · intro op hop
+    rcases List.mem_append.mp hop with h | h
+    · exact hAplain op h
+    · rcases List.mem_append.mp h with h | h
+      · exact hBCplain op h
+      · split at h
+        · simp only [List.mem_cons, List.mem_nil_iff, or_false] at h; subst h; rfl
+        · cases h
+  · intro i
+    rw [run_append, run_append]
+    split
+    · have htr := Tr.exec_plain (run .fixed (run .fixed s A) (B ++ C)) .destroyPool rfl
+      simp only [run]
+      cases h : ((exec .fixed (run .fixed (run .fixed s A) (B ++ C)) .destroyPool).sock i).alive with
+      | false => rfl
+      | true => have := (htr.frame i).2.2 h; rw [hBCdead i] at this; cases this
+    · exact hBCdead i
+  · intro j
+    rw [run_append, run_append]
+    split
+    · rename_i hpa
+      simp only [run]
+      have hlp : legalOp (run .fixed (run .fixed s A) (B ++ C)) .destroyPool = true := by
+        simp only [legalOp, Bool.and_eq_true, beq_iff_eq]
+        refine ⟨by rw [hpoolEq]; exact hpa, ?_⟩
+        unfold St.poolBusy
+        rw [List.length_eq_zero_iff, List.filter_eq_nil_iff]
+        intro j _
+        rw [hBCpend j]; simp
+      have hFP := hFBC.exec .fixed .destroyPool
+      have htr := Tr.exec_plain (run .fixed (run .fixed s A) (B ++ C)) .destroyPool rfl
+      cases hp : (exec .fixed (run .fixed (run .fixed s A) (B ++ C)) .destroyPool).isPending j with
+      | false => rfl
+      | true =>
+        obtain ⟨x, hx⟩ := (isPending_iff _ j).mp hp
+        have h1 := (hFP.fd j x hx).1
+        have := (htr.frame x).2.2 h1
+        rw [hBCdead x] at this; cases this
+    · exact hBCpend j
+
 end SockModel.Lifecycle
